@@ -10,14 +10,17 @@ CLAIMED = {
         text="Lean 4 theorems about a model of parser.py that is generic in the operator table "
              "regenerated from the source on every run: C01_yield (an accepted token list is exactly "
              "the yield of the returned tree, any length), C01_stratified (every returned tree is a "
-             "derivation of the documented precedence/associativity grammar), tie of the regenerated "
-             "table to the documented one by `decide`. The model is tied to the code by an exhaustive "
+             "derivation of the documented precedence/associativity grammar), C01_roundtrip / "
+             "C01_parse_iff (parse T ts = ok e <-> Stratified T e and e.flat = ts, with the real fuel), "
+             "C01_unique_reading, C01_rejects_non_sentences, C01_fullparen, C01_redundant_parens, scanner "
+             "theorems (C01_second_tilde, C01_unterminated, C01_scan_render, C01_ws: any two admissible "
+             "layouts scan alike); tie of the regenerated table to the documented one by `decide`. The model is tied to the code by an exhaustive "
              "differential run (all token strings up to a length bound, character strings for the "
              "scanner, generated sentences); the specification (reference parse) is evaluated on the "
              "implementation's own output.",
         note="Trusted: Lean kernel; harness/extract_tables.py; the structural serialisation of the Python "
-             "AST; ASCII input only; the scanner is modelled and compared but its theorems are not yet "
-             "proved.",
+             "AST; ASCII input only; int()/float() of number lexemes are checked in Python; a history "
+             "stage runs look-alike strings through model_description one after the other.",
         technique="Lean 4 proof (fuel induction over the recursive-descent parser model) + table translator "
                   "+ exhaustive differential correspondence",
         ref="6 C01"),
@@ -30,11 +33,14 @@ CLAIMED = {
              "failures inside the recorded defect classes (Lean guard predicates + model-predicted "
              "output) are known findings.",
         note="Trusted: Lean kernel; translator; CPython operator dispatch and list semantics as modelled "
-             "in Model/Terms.lean; terms compared by name. The refinement theorem (model = denotation on "
-             "the documented language minus the gap classes) is being proved separately; until it is "
-             "merged the model-vs-denotation agreement is checked per case by the driver (sem_ok).",
-        technique="Lean 4 executable model + denotational spec + table tie (decide) + exhaustive "
-                  "differential correspondence",
+             "in Model/Terms.lean; terms compared by name with sorted factors. Refinement theorems "
+             "C02_plain_refines_partial / C02_refines_partial (the resolved term list with later duplicates "
+             "dropped IS the denotation, for chains of plain items, intercept literals and added / "
+             "subtracted group items; guards = the recorded gap classes D3 D22 D24 D25), C02_nodup, "
+             "C02_plain_total_partial; that every scanned formula has the shape the theorem covers is "
+             "checked per case, not proved.",
+        technique="Lean 4 proof (refinement of the operator-overload model to the Wilkinson-Rogers "
+                  "denotation) + table tie (decide) + exhaustive differential correspondence",
         ref="6 C02"),
     "C03": dict(
         text="Lean 4 model mirroring contrasts.py literally and the encoding pipeline of Model.eval, with "
@@ -61,9 +67,13 @@ CLAIMED = {
              "one common order for any arity and any column counts (C04_product_order), the group-specific "
              "labels e|g and the Khatri-Rao columns likewise (C04_group_label), full and reduced treatment "
              "columns are exactly the indicators of the level their label names for every level count and "
-             "reference (C04_indicator_full / _reduced). An independent label decoder (Spec.C04) is "
-             "evaluated by the driver on the labels and matrices of real designs; the evaluation model is "
-             "compared with the implementation entry by entry.",
+             "reference (C04_indicator_full / _reduced); for the model's own trainComp / trainTerm / "
+             "trainGroup and the whole-pipeline designMatrices every row has exactly one entry per label "
+             "(C04_*_labels_partial, C04_design_labels_partial; hypotheses: rectangular frame, namespace "
+             "vectors as long as the frame). An independent label decoder (Spec.C04) is evaluated by the "
+             "driver on the labels and matrices of real designs and of the matrices evaluate_new_data "
+             "returns (frames with all levels, repeated rows, missing levels); level order is judged for "
+             "plain variables and coding calls; the evaluation model is compared entry by entry.",
         note="Trusted: Lean kernel; pandas dtype inference / Categorical codes / numpy indexing as "
              "modelled in Model/Matrices.lean; coding decisions (full/reduced) are inputs observed from "
              "the implementation (they are C03's subject); sum-coded and spline/poly columns are not "
@@ -75,15 +85,21 @@ CLAIMED = {
         text="Lean 4 theorems about the Khatri-Rao model for every number of groups, effect width and "
              "row: slot g' of an observation of group g holds the effect row when g' = g and zero "
              "otherwise, at positions g'*p + k (C05_block_row), width G*p, cells of g1:g2 in "
-             "lexicographic order of the level lists (C05_cell_order). Spec.C05 (expected groups from "
-             "sorted / declared levels, block structure against the observed effect columns) is "
-             "evaluated by the driver on every group-specific term of real designs; the evaluation "
-             "model is compared entry by entry. The coding-rule clause (reduced vs full effects) is "
-             "judged against the redundancy analysis of C03 (pending merge of that model) and by exact "
+             "lexicographic order of the level lists (C05_cell_order); for the model's own trainGroup, "
+             "any number of grouping components: every factor row is the unit row of its cell "
+             "(C05_factor_indicator), levels sorted / declared (C05_factor_levels), every block row is the "
+             "Kronecker row of the cell indicator with the effect row (C05_trainGroup_block / _entries), "
+             "labels group-major e|g[l] and as many as columns (C05_trainGroup_labels / _width); the "
+             "hypothesis IndicatorCoded is automatic for plain and Treatment-coded factors and cannot be "
+             "dropped (C05_factor_sum_counterexample = known finding D30). Spec.C05 (expected groups, "
+             "block structure against the observed effect columns; checkNew for the per-term blocks of "
+             "evaluate_new_data results incl. unseen groups) is evaluated by the driver on real designs; "
+             "the evaluation model is compared entry by entry. The coding-rule clause (reduced vs full "
+             "effects) is judged against the redundancy analysis of C03 (driver op c05_rule) and by exact "
              "rank on crossed data.",
         note="Trusted: Lean kernel; scipy.linalg.khatri_rao is modelled by the row product; the effect "
              "columns are read from term.expr.data; the coding-rule clause is only partially covered "
-             "(known defects D11, D12 of DESIGN.md section 3).",
+             "(known findings D11, D12; D30 for sum-coded grouping factors).",
         technique="Lean 4 proof (index arithmetic on flatMap) + block-structure spec on real output + "
                   "model correspondence",
         ref="6 C05"),
@@ -153,8 +169,11 @@ CLAIMED = {
         text="Lean 4 model of var_names (CallVarsExtractor over the lazy call tree) and of the NA step of "
              "design_matrices, with theorems: the visitor finds exactly the variable leaves incl. keyword "
              "and nested-call arguments (argVars_eq / atomVars_eq, mutual structural induction), drop = "
-             "selected columns restricted to complete rows, error <=> an incomplete selected row, pass "
-             "keeps all rows, other actions refused, unused columns ignored, row alignment of all columns; "
+             "selected columns restricted to complete rows, C09_drop_eq_filtered (for every rectangular "
+             "frame the NA step under drop equals the NA step on the frame from which the incomplete rows "
+             "were removed, incl. the refusal when no row is complete), error <=> an incomplete selected "
+             "row, pass keeps all rows, other actions and empty frames refused, unused columns ignored, "
+             "row alignment of all columns; "
              "accepted actions regenerated from matrices.py and tied by `decide`. Spec.C09 (used variables "
              "from the AST, drop run = run on the filtered frame, error policy, pass rule against the "
              "imputed reference) is evaluated by the driver on real runs over generated missingness "
@@ -171,7 +190,9 @@ CLAIMED = {
              "row of an unseen value is the zero row and every other row is its contrast row, warning iff "
              "mode = warning (C10_zero_rows); a zero row zeroes every interaction column "
              "(C10_interaction_zero_*); an observation of an unseen group gets the trailing (G+1)-th block "
-             "carrying its effect values, all existing slots zero (C10_new_group_block); Config accepts "
+             "carrying its effect values, all existing slots zero (C10_new_group_block; lifted to the "
+             "model's newGroup on any state produced by trainGroup: C10_newGroup_block / _error / "
+             "_unseen_entries / _single); Config accepts "
              "exactly the documented key/values, defaults to error, last setting wins; the field table is "
              "regenerated from config.py and tied by `decide`. Spec.C10 (zero rule, new-group rule, "
              "factors_with_new_levels, slices, raise/warn policy) is evaluated by the driver on pairs of "
@@ -240,14 +261,21 @@ CLAIMED = {
              "one-component term (C15_single_term, iff), y[level] is the 0/1 indicator of the level "
              "whatever else (C15_subset_value), a numeric response is returned unchanged, prop gives "
              "(successes, trials) with a constant broadcast, a categorical response is coded with the unit "
-             "row of each observation's level (C15_full_rows). Spec.C15.expected (computed from the "
+             "row of each observation's level (C15_full_rows, C15_categorical_value / _entry); in the "
+             "whole-pipeline model the predictor parts are a function of the resolved right-hand side and "
+             "the frame after the NA step in which the response does not occur (C15_predictors_function), "
+             "two runs that differ in the response only have equal predictors (C15_independent*), no `~` "
+             "character gives no response (C15_none_chars), an absent level gives the zero column "
+             "(C15_subset_absent_level). Spec.C15.expected (computed from the "
              "response expression and the data alone) is compared by the driver with the matrix, levels and "
-             "kind of real designs for 17 response forms x right-hand sides x frames; predictor "
-             "independence, refusal of non-single-term responses and response-less designs are relations "
-             "between real runs.",
-        note="Trusted: Lean kernel; pandas dtype inference; the independence of the predictor matrices "
-             "from the response holds in the model by construction (they are functions of the terms only) "
-             "and is decided for the implementation by the paired runs.",
+             "kind of real designs for ~50 response forms (incl. unusual level spellings, compact dtypes) "
+             "x right-hand sides x frames; prop trials at prediction on shorter / equal / longer frames "
+             "(Spec.C15.expectedTrials); predictor independence, refusal of non-single-term responses and "
+             "response-less designs are also relations between real runs.",
+        note="Trusted: Lean kernel; pandas dtype inference; the independence theorems are about the "
+             "whole-pipeline model (hypotheses: equal resolved right-hand sides, agreement of the frames "
+             "after the NA step on the columns read) and are decided for the implementation by the paired "
+             "runs.",
         technique="Lean 4 proof + independent expected-response spec evaluated on real output + paired runs",
         ref="6 C15"),
     "C16": dict(
@@ -255,11 +283,15 @@ CLAIMED = {
              "then 1 exactly where x = s, the default success is the smallest value (C16_binary_*), "
              "offset contributes its argument unchanged / broadcasts a constant, I is the identity, prop "
              "is accepted iff successes and trials are integers with successes <= trials "
-             "(C16_prop_valid_iff); the alias groups (B = binary, p = prop = proportion, standardize = "
+             "(C16_prop_valid_iff); binary on string / categorical data (C16_binary_levels*), offset and "
+             "prop recomputed from the new frame at prediction (C16_offset_*_predict, C16_prop_*_predict), "
+             "aliases evaluate alike for every argument list and state (C16_alias_eval, "
+             "C16_alias_T/S_partial with guard = complement of D25); the alias groups (B = binary, p = prop = proportion, standardize = "
              "scale) are read from the live registry by object identity and tied by `decide`. Spec.C16 is "
              "evaluated by the driver on columns of real designs at training time and on new frames "
              "(offset and prop trials recomputed from the new frame); alias pairs incl. T/S vs C are "
-             "compared as paired real runs.",
+             "compared as paired real runs, also on new data, with two calls that differ in a keyword value, "
+             "and with the helper names bound to unrelated objects in the calling scopes.",
         note="Trusted: Lean kernel; translator (live registry introspection); numpy broadcasting. The "
              "prediction-time clause for binary is defect D14 (binary is not stateful), recorded and "
              "classified under C06.",
@@ -283,7 +315,12 @@ CLAIMED = {
              "of terms and widths: slices start at zero, are contiguous, follow the term order and cover "
              "exactly the columns (also for the recomputed slices of a widened group matrix), "
              "__getitem__ by known / unknown name, column stacking keeps one row per observation and the "
-             "summed width. Spec.C17.holds is evaluated by the driver on slices / shapes / labels observed "
+             "summed width; for the model's own functions: one row per frame row for every expression "
+             "(C17_trainComp/Term/Group_rows_partial), prediction keeps the training width or widens by "
+             "exactly the effect width for a new group (C17_newTerm/newGroup_shape_partial), the whole "
+             "design has one row per row of the frame after the NA step and slices contiguous from 0 "
+             "covering every row's width (C17_design_rows/common/group_partial; hypothesis: namespace "
+             "vectors as long as the frame, with a counterexample when it fails). Spec.C17.holds is evaluated by the driver on slices / shapes / labels observed "
              "from real objects, including chains of evaluate_new_data with unseen groups; view equalities "
              "and printed shapes are checked on the Python side; the evaluation model is compared with the "
              "implementation on designs over exactly modelled atoms.",
@@ -334,8 +371,11 @@ def main():
                      "kind_free_text": "Lean 4 model + theorems (lake project), table translator, "
                                        "JSON-lines driver, differential correspondence harness"}],
         "checks": checks,
-        "notes": "Fix commits in /repo: 06a3c94 (C01 D1), c92fc35 (C02 D2), 76249d2 (C17 D17); see "
-                 "known_findings.json and DESIGN.md section 3.",
+        "notes": "Fix commits in /repo (one defect each, unguarded, baseline tests pass): 06a3c94 D1, "
+                 "c92fc35 D2, 76249d2 D17, 8044325 D21, 85874ae D23, 90aa816 D10/D20, 021c147 D18, "
+                 "032aa69 D9, e129cca D28, ae2fc0b D29; open known findings in known_findings.json; "
+                 "DESIGN.md section 10 describes what was built, 10.5 the 130+ independently seeded "
+                 "breaking changes under seeded/ and which checks report them.",
         "not_applicable": [{"property_id": p, "reason": NOT_YET} for p in ids if p not in CLAIMED],
     }
     with open(os.path.join(VERIF, "MANIFEST.json"), "w") as f:
